@@ -3,6 +3,7 @@ Relative Components Analysis (RCA)
 """
 
 import numpy as np
+import scipy.linalg
 import warnings
 from sklearn.base import TransformerMixin
 
@@ -112,11 +113,12 @@ class RCA(MahalanobisMixin, TransformerMixin):
     # Fisher Linear Discriminant projection
     if dim < X.shape[1]:
       total_cov = np.cov(X[chunk_mask], rowvar=0)
-      tmp = np.linalg.lstsq(total_cov, inner_cov, rcond=None)[0]
-      vals, vecs = np.linalg.eig(tmp)
-      # tmp is similar to a symmetric positive semi-definite matrix, so its
-      # spectrum is real; recent numpy returns it with a complex dtype
-      vals, vecs = vals.real, vecs.real
+      # generalised symmetric eigenproblem inner_cov v = lambda total_cov v:
+      # real eigenpairs, also when eigenvalues are repeated (with few chunks
+      # most directions have ratio 1, and the eigenvectors that np.linalg.eig
+      # returns for the non-symmetric total_cov^-1 inner_cov are then not
+      # independent)
+      vals, vecs = scipy.linalg.eigh(inner_cov, total_cov)
       inds = np.argsort(vals)[:dim]
       A = vecs[:, inds]
       inner_cov = np.atleast_2d(A.T.dot(inner_cov).dot(A))
